@@ -557,6 +557,10 @@ func (f *File) Stat() (os.FileInfo, error) {
 	if f.pass != nil {
 		return f.pass.Stat()
 	}
+	if f.isStdout && f.wplan != nil && f.wplan.Kind == "file" {
+		// standard output redirected to a regular file (>> log: it may hold data already)
+		return fileInfo{name: f.name, size: int64(f.wplan.Existing + f.written)}, nil
+	}
 	if f.real != nil && f.isPipe {
 		return fileInfo{name: f.name, size: 0, pipe: true}, nil
 	}
@@ -619,4 +623,18 @@ func dirExists(name string) bool {
 		}
 	}
 	return false
+}
+
+// SameFile replaces os.SameFile: two descriptions of the virtual file system
+// are the same file when they name the same path.
+func SameFile(a, b os.FileInfo) bool {
+	x, okx := a.(fileInfo)
+	y, oky := b.(fileInfo)
+	if okx && oky {
+		return filepath.Clean(x.name) == filepath.Clean(y.name)
+	}
+	if okx || oky {
+		return false
+	}
+	return os.SameFile(a, b)
 }
